@@ -3,6 +3,7 @@
  'functions': [],
  'clauses': 'the reference itself (spec/c17_crc_ref.h), independently of igris: its five instances give the published check values of the CRC catalogue for the message "123456789" (CRC-8/NRSC-5 0xF7 = poly 0x31 MSB-first init 0xFF, CRC-8/MAXIM-DOW 0xA1, CRC-16/IBM-3740 0x29B1 and CRC-16/XMODEM 0x31C3, CRC-7/MMC 0x75, CRC-32/MPEG-2 0x0376E6E7); the loop-free SPEC_REFLECT8 used inside loop invariants equals spec_crc_reflect(.,8) for all 256 values and reflection is an involution; the reference step is linear over GF(2) in (register, byte) (what makes a CRC a CRC)',
  'unwind': 33,
+ 'cbmc_flags': ['--sat-solver', 'cadical'],
  'complete_unwinding': 'all loops here have constant bounds <= 32 (9 message bytes, 8 bits, width <= 32 reflect); --unwind 33 with unwinding assertions',
  'witness': {'unwind': 33},
 } @*/
